@@ -1,8 +1,45 @@
 //vf:dir util/queue
 //vf:race
+//vf:import util/queue sync github.com/whatap/golib/zzvf/zsync native
+//vf:import util/list sync github.com/whatap/golib/zzvf/zsync native
 package queue
 
-import "github.com/whatap/golib/zzvf"
+import (
+	"strings"
+
+	"github.com/whatap/golib/zzvf"
+)
+
+// the lock event log (ghost log under the executor; natively written by package zsync)
+func zz10EventCount() int {
+	s := zzvf.Events()
+	if s == "" {
+		return 0
+	}
+	return len(strings.Split(s, ";"))
+}
+
+// zz10Sections: number of top-level lock acquisitions since event index `from`
+func zz10Sections(from int) int {
+	s := zzvf.Events()
+	if s == "" {
+		return 0
+	}
+	ev := strings.Split(s, ";")
+	depth, n := 0, 0
+	for _, e := range ev[from:] {
+		switch {
+		case strings.HasPrefix(e, "lock "), strings.HasPrefix(e, "rlock "):
+			if depth == 0 {
+				n++
+			}
+			depth++
+		case strings.HasPrefix(e, "unlock "), strings.HasPrefix(e, "runlock "):
+			depth--
+		}
+	}
+	return n
+}
 
 var zzQOps10 = []string{"put", "putforce", "get", "getnowait", "clear", "size", "setcapacity", "getcapacity"}
 
@@ -47,7 +84,11 @@ func ZZ_C10_RequestQueue() {
 	if (a == 2 || b == 2) && (a == 3 || a == 4 || b == 3 || b == 4 || a == b) {
 		return // the other operation could empty the queue and leave Get blocked natively
 	}
-	zzvf.Guard("deadlock/RequestQueue/"+zzQOps10[a], zzQOp(mk(), a))
+	g := mk()
+	e0 := zz10EventCount()
+	zzvf.Guard("deadlock/RequestQueue/"+zzQOps10[a], zzQOp(g, a))
+	// one atomic step = one critical section of the queue's lock (the list's lock nests inside)
+	zzvf.Assert(zz10Sections(e0) <= 1, "atomic/RequestQueue/"+zzQOps10[a]+"/one-critical-section")
 	zzvf.RacePairFresh("race/RequestQueue/"+zzQOps10[a]+"|"+zzQOps10[b], func() (func(), func()) {
 		q := mk()
 		return zzQOp(q, a), zzQOp(q, b)
@@ -122,7 +163,12 @@ func ZZ_C10_RequestDoubleQueue() {
 	n := zzvf.Choose(3)
 	a := zzvf.Choose(len(zzDQOps10))
 	opA := zzDQOps10[a]
-	zzvf.Guard("deadlock/RequestDoubleQueue/"+opA, zzDQOp(zzDQPre(n), opA))
+	g := zzDQPre(n)
+	e0 := zz10EventCount()
+	zzvf.Guard("deadlock/RequestDoubleQueue/"+opA, zzDQOp(g, opA))
+	if a < zzDQPair {
+		zzvf.Assert(zz10Sections(e0) <= 1, "atomic/RequestDoubleQueue/"+opA+"/one-critical-section")
+	}
 	if a < zzDQPair {
 		opB := zzDQOps10[a+zzvf.Choose(zzDQPair-a)]
 		if (opA == "get" || opB == "get") && (opA == opB || opA == "getnowait" || opA == "clear" || opB == "getnowait" || opB == "clear") {
